@@ -1,6 +1,6 @@
 SPECIFICATION Spec
 CONSTANTS
-  Ids = {"n1","n2","n3"}
+  Ids = {"n1","n2","n3","n4"}
   Bk <- BkL
   Buckets = {1}
   IPs = {"l1"}
